@@ -113,7 +113,13 @@ func smallScenarios() []smallScenario {
 		"1 rename " + h("/s") + " " + h("/t"), "0 setumask 0", "1 readdir " + h("."), "1 sub " + h("/s"), "0 sub " + h("/d/s")} {
 		vwAlpha = append(vwAlpha, "@"+l)
 	}
+	// the permission bits of the ROOT directory itself and of a directory entered by Chdir: calls on the root alone, on
+	// names in it, on "." — as the administrator and as a plain user
+	rpAlpha := []string{"chmod " + h("/") + " 384", "chmod " + h("/") + " 457", "chmod " + h("/") + " 493", "setuser 1001 1001 0", "setuser 0 0 1",
+		"stat " + h("/"), "lstat " + h("/"), "readdir " + h("/"), "stat " + h("/tmp"), "chmod " + h("/tmp") + " 448", "mkdir " + h("/tmp/x") + " 493",
+		"chdir " + h("/tmp"), "stat " + h("."), "stat " + h(".."), "openfile " + h("/") + " 0 0"}
 	return []smallScenario{
+		{"root-perm", nil, rpAlpha, 4, 5},
 		{"views", vwSetup, vwAlpha, 3, 4},
 		{"removeall-sticky", stSetup, stAlpha, 3, 4},
 		{"link-budget", lbSetup, lbAlpha, 1, 2},
